@@ -11,6 +11,7 @@
    ROwn 102 = the aggregate).  Pure functions are uninterpreted symbols F_xxx. *)
 From Coq Require Import ZArith List Bool PeanoNat.
 From FV Require Import Common.ListX Common.Store.
+From FV Require gen.Gen_for_each_client gen.Gen_tree_util.
 Import ListNotations.
 
 (* ---- function symbols -------------------------------------------------------------- *)
@@ -23,7 +24,8 @@ Definition F_SUB := 16%Z.      Definition F_CLIP := 17%Z.     Definition F_ALPHA
 Definition F_EG := 19%Z.       Definition F_LOSS := 20%Z.     Definition F_COEF := 21%Z.
 Definition F_FINAL2 := 22%Z.   Definition F_FINAL3 := 23%Z.   Definition F_SEQKEY := 24%Z.
 Definition F_SEQREST := 25%Z.  Definition F_BITS := 26%Z.     Definition F_ROT := 27%Z.
-Definition F_ARGMIN := 28%Z.   Definition F_BETA := 29%Z.
+Definition F_ARGMIN := 28%Z.   Definition F_BETA := 29%Z.     Definition F_NEQ := 30%Z.
+Definition F_NONE := 31%Z.     Definition F_MKINPUT := 32%Z.  Definition F_ABITS := 33%Z.
 
 Definition st_r := RIn 0.     Definition cl_r := RIn 1.
 Definition res_state := ROwn 100.  Definition res_diag := ROwn 101.  Definition res_agg := ROwn 102.
@@ -31,26 +33,44 @@ Definition res_state := ROwn 100.  Definition res_diag := ROwn 101.  Definition 
 Fixpoint indexed {A} (i : nat) (l : list A) : list (nat * A) :=
   match l with [] => [] | x :: r => (i, x) :: indexed (S i) r end.
 
+(* the operands a jitted call donates: `groups` are the registers standing for each positional
+   argument, `pos` the donate_argnums translated from the source *)
+Definition pick_don_Z (pos : list Z) (groups : list (list reg)) : list reg :=
+  flat_map (fun ig : nat * list reg => if existsb (Z.eqb (Z.of_nat (fst ig))) pos then snd ig else []) (indexed 0 groups).
+Definition pick_don (pos : list nat) (groups : list (list reg)) : list reg :=
+  flat_map (fun ig : nat * list reg => if existsb (Nat.eqb (fst ig)) pos then snd ig else []) (indexed 0 groups).
+
 (* RIn 10 = client record, RIn 11 = dataset (params for aggregators), RIn 12 = rng (weight) *)
 Definition open_client (i : nat) : list cmd :=
   [Index (RIn 10) cl_r i; Field (RIn 11) (RIn 10) 1; Field (RIn 12) (RIn 10) 2].
 
-(* for_each_client (jit backend, for_each_client.py:88-104): jit_client_init copies the
-   state it builds, jit_client_step donates that copy, jit_client_final donates it again.
+(* for_each_client, jit backend (for_each_client.py:88-104).  Whether jit_client_init copies the
+   state it builds, and which arguments jit_client_step / jit_client_final donate, are the
+   constants TRANSLATED from the source (gen/Gen_for_each_client.v): without the copy the step
+   state would be the caller's arrays themselves (RIn 16) and the step would donate those.
    `shared` are the shared-input arrays, `extra` the per-client input arrays besides rng. *)
 Definition run_client (shared extra : list reg) (out : reg) : list cmd :=
-  [Call (ROwn 1) F_INIT (shared ++ extra ++ [RIn 12]) [];
-   Call (ROwn 2) F_STEPS [ROwn 1; RIn 11] [ROwn 1];
-   Call out F_FINAL (shared ++ [ROwn 2]) [ROwn 2]].
+  let st0 := if Gen_for_each_client.jit_init_copies then ROwn 1 else RIn 16 in
+  [if Gen_for_each_client.jit_init_copies
+   then Call (ROwn 1) F_INIT (shared ++ extra ++ [RIn 12])
+             (pick_don_Z Gen_for_each_client.jit_init_donates [shared; extra ++ [RIn 12]])
+   else Move (RIn 16) (hd (RIn 12) (shared ++ extra));
+   Call (ROwn 2) F_STEPS [st0; RIn 11] (pick_don_Z Gen_for_each_client.jit_step_donates [[st0]; [RIn 11]]);
+   Call out F_FINAL (shared ++ [ROwn 2]) (pick_don_Z Gen_for_each_client.jit_final_donates [shared; [ROwn 2]])].
 
-(* the running weighted mean used by FedAvg / FedProx / Mime / MimeLite / APFL
-   (fed_avg.py:129-146): ROwn 0 = delta_params_sum, ROwn 20 = num_examples_sum *)
-Definition accumulate (delta : reg) (cid : Z) : list cmd :=
-  [Call (ROwn 4) F_WEIGHT [delta; RIn 11] [];
-   Call (ROwn 0) F_ADD [ROwn 0; ROwn 4] [];
-   Call (ROwn 20) F_ADDN [ROwn 20; RIn 11] [];
-   Call (ROwn 5) F_NORM [delta] [];
-   DictSet res_diag cid (ROwn 5)].
+(* the running weighted mean used by FedAvg / FedProx / Mime / MimeLite / APFL / Agnostic
+   (fed_avg.py:129-146): ROwn 0 = delta_params_sum, ROwn 20 = num_examples_sum.  tree_weight and
+   tree_add donate what gen/Gen_tree_util.v says (nothing). *)
+Definition weighted_add (delta w : reg) : list cmd :=
+  [Call (ROwn 4) F_WEIGHT [delta; w] (pick_don Gen_tree_util.tree_weight_donates [[delta]; [w]]);
+   Call (ROwn 0) F_ADD [ROwn 0; ROwn 4] (pick_don Gen_tree_util.tree_add_donates [[ROwn 0]; [ROwn 4]]);
+   Call (ROwn 20) F_ADDN [ROwn 20; w] []].
+
+(* client_diagnostics[cid] = {'delta_l2_norm': ...}: a new dict stored into the fresh diagnostics dict *)
+Definition set_diag (delta : reg) (cid : Z) : list cmd :=
+  [Call (ROwn 5) F_NORM [delta] []; DictOf (ROwn 110) [(0%Z, ROwn 5)]; DictSet res_diag cid (ROwn 110)].
+
+Definition accumulate (delta : reg) (cid : Z) : list cmd := weighted_add delta (RIn 11) ++ set_diag delta cid.
 
 Definition mean_begin (params : reg) : list cmd :=
   [DictNew res_diag; Call (ROwn 0) F_ZEROS [params] []; Call (ROwn 20) F_ZEROS [params] []].
@@ -66,17 +86,17 @@ Definition script_fedavg (cids : list Z) : list cmd :=
            (indexed 0 cids) ++
   mean_end ++ server_opt (ROwn 6) (RIn 3) (RIn 2) ++ [MkRec res_state [ROwn 8; ROwn 7]].
 
-(* tree_sum (tree_util.py:64-73): the first summand is copied, later ones are added with
-   the accumulator donated.  ROwn 30 = accumulator *)
-Definition tree_sum_step (i : nat) (x : reg) : list cmd :=
+(* tree_sum (tree_util.py:64-73): the first summand is copied, later ones are added through
+   _tree_add_eq, which donates what gen/Gen_tree_util.v says (the accumulator).  ROwn 30 = accumulator *)
+Definition sum_step (i : nat) (x : reg) : list cmd :=
   match i with
   | O => [Call (ROwn 30) F_COPY [x] []]
-  | S _ => [Call (ROwn 30) F_ADD [ROwn 30; x] [ROwn 30]]
+  | S _ => [Call (ROwn 30) F_ADD [ROwn 30; x] (pick_don Gen_tree_util.tree_add_eq_donates [[ROwn 30]; [x]])]
   end.
 
 (* the full-batch gradient pass of Mime / MimeLite (mime.py:168-173) *)
 Definition grads_pass (cids : list Z) : list cmd :=
-  flat_map (fun ic : nat * Z => open_client (fst ic) ++ run_client [RIn 2] [] (ROwn 3) ++ tree_sum_step (fst ic) (ROwn 3))
+  flat_map (fun ic : nat * Z => open_client (fst ic) ++ run_client [RIn 2] [] (ROwn 3) ++ sum_step (fst ic) (ROwn 3))
            (indexed 0 cids) ++
   [Call (ROwn 31) F_INVW [ROwn 30] []].
 
@@ -91,65 +111,91 @@ Definition script_mime (cids : list Z) : list cmd :=
            (indexed 0 cids) ++
   mean_end ++ mime_update.
 
-(* MimeLite (mime_lite.py:111-170); clip = client_delta_clip_norm is not None *)
+(* MimeLite (mime_lite.py:111-170); clip = client_delta_clip_norm is not None: the diagnostics
+   entry is stored first, the clipped norm and the flag are then written INTO that fresh entry *)
 Definition script_mimelite (clip : bool) (cids : list Z) : list cmd :=
   [Field (RIn 2) st_r 0; Field (RIn 3) st_r 1] ++ mean_begin (RIn 2) ++
   flat_map (fun ic : nat * Z => open_client (fst ic) ++ run_client [RIn 2; RIn 3] [] (ROwn 3) ++
-                      (if clip then [Call (ROwn 9) F_CLIP [ROwn 3] []] else [Move (ROwn 9) (ROwn 3)]) ++
-                      accumulate (ROwn 9) (snd ic))
+                      set_diag (ROwn 3) (snd ic) ++
+                      (if clip then [Call (ROwn 9) F_CLIP [ROwn 3] []; Call (ROwn 111) F_NORM [ROwn 9] [];
+                                     DictSet (ROwn 110) 1 (ROwn 111); Call (ROwn 112) F_NEQ [ROwn 5; ROwn 111] [];
+                                     DictSet (ROwn 110) 2 (ROwn 112)]
+                       else [Move (ROwn 9) (ROwn 3)]) ++
+                      weighted_add (ROwn 9) (RIn 11))
            (indexed 0 cids) ++
   mean_end ++ grads_pass cids ++ mime_update.
 
-(* AgnosticFedAvg (agnostic_fed_avg.py:253-312), window of W arrays in a list *)
+(* AgnosticFedAvg (agnostic_fed_avg.py:253-312), window of W arrays in a list.  The per-client
+   domain metrics live in registers ROwn (300 + i) (the fresh dict that holds them in the code is
+   only read); batch_clients is a fresh list filled by append. *)
 Definition script_agnostic (W : nat) (cids : list Z) : list cmd :=
   [Field (RIn 2) st_r 0; Field (RIn 3) st_r 1; Field (RIn 4) st_r 2; Field (RIn 5) st_r 3] ++
   map (fun j => Index (RIn (40 + j)) (RIn 5) j) (seq 0 W) ++
-  [Call (ROwn 40) F_ALPHA (RIn 4 :: map (fun j => RIn (40 + j)) (seq 0 W)) []; DictNew (ROwn 41)] ++
-  (* first pass: domain metrics per client, kept in a fresh dict *)
-  flat_map (fun ic : nat * Z => open_client (fst ic) ++ run_client [RIn 2; ROwn 40] [] (ROwn 3) ++ [DictSet (ROwn 41) (snd ic) (ROwn 3)])
+  [Call (ROwn 40) F_ALPHA (RIn 4 :: map (fun j => RIn (40 + j)) (seq 0 W)) []] ++
+  (* first pass: domain metrics per client *)
+  flat_map (fun ic : nat * Z => open_client (fst ic) ++ run_client [RIn 2; ROwn 40] [] (ROwn 3) ++ [Move (ROwn (300 + fst ic)) (ROwn 3)])
+           (indexed 0 cids) ++
+  (* batch_clients = []; for ...: batch_clients.append((cid, batches, {'rng': crng, 'beta': ...})) *)
+  [ListNew (ROwn 44)] ++
+  flat_map (fun ic : nat * Z => open_client (fst ic) ++
+                      [Call (ROwn 45) F_BETA [ROwn (300 + fst ic)] []; DictOf (ROwn 46) [(0%Z, RIn 12); (1%Z, ROwn 45)];
+                       MkRec (ROwn 47) [RIn 10; RIn 11; ROwn 46]; ListAppend (ROwn 44) (ROwn 47)])
            (indexed 0 cids) ++
   mean_begin (RIn 2) ++
   (* second pass: training with beta from the metrics; the metric is also the weight *)
-  flat_map (fun ic : nat * Z => open_client (fst ic) ++ [DictGet (RIn 13) (ROwn 41) (snd ic) (RIn 2)] ++
-                      run_client [RIn 2; ROwn 40] [RIn 13] (ROwn 3) ++
-                      [Call (ROwn 4) F_WEIGHT [ROwn 3; RIn 13] []; Call (ROwn 0) F_ADD [ROwn 0; ROwn 4] [];
-                       Call (ROwn 20) F_ADDN [ROwn 20; RIn 13] []; Call (ROwn 5) F_NORM [ROwn 3] [];
-                       DictSet res_diag (snd ic) (ROwn 5)])
+  flat_map (fun ic : nat * Z => open_client (fst ic) ++
+                      run_client [RIn 2; ROwn 40] [ROwn (300 + fst ic)] (ROwn 3) ++
+                      weighted_add (ROwn 3) (ROwn (300 + fst ic)) ++ set_diag (ROwn 3) (snd ic))
            (indexed 0 cids) ++
   mean_end ++
   (* tree_sum over the metrics of all clients *)
-  flat_map (fun ic : nat * Z => [DictGet (RIn 13) (ROwn 41) (snd ic) (RIn 2)] ++ tree_sum_step (fst ic) (RIn 13)) (indexed 0 cids) ++
+  flat_map (fun ic : nat * Z => sum_step (fst ic) (ROwn (300 + fst ic))) (indexed 0 cids) ++
   server_opt (ROwn 6) (RIn 3) (RIn 2) ++
   [Call (ROwn 42) F_EG [RIn 4; ROwn 30] [];
    ListSliceApp (ROwn 43) (RIn 5) 1 (ROwn 30);             (* domain_window[1:] + [sum_domain_num] *)
    MkRec res_state [ROwn 8; ROwn 7; ROwn 42; ROwn 43]].
 
-(* HypCluster (hyp_cluster.py:92-134, 268-303): K clusters; assign = cluster of each client
-   (result of the pure argmin); live k = cluster k saw at least one example *)
+(* HypCluster (hyp_cluster.py:92-134, 224-303): K clusters; assign = cluster of each client
+   (result of the pure argmin); live k = cluster k saw at least one example.
+   cluster_losses = {cid: [] ...}: one fresh list per client (ROwn (400+i)) appended to once per
+   cluster; the running sums / counts are list comprehensions written by index. *)
 Definition script_hyp (K : nat) (cids : list Z) (assign : list nat) (live : list bool) : list cmd :=
-  [Field (RIn 2) st_r 0; Field (RIn 3) st_r 1; DictNew res_diag] ++
+  [Field (RIn 2) st_r 0; Field (RIn 3) st_r 1] ++
   flat_map (fun k => [Index (RIn (20 + k)) (RIn 2) k; Index (RIn (60 + k)) (RIn 3) k]) (seq 0 K) ++
   (* maximization: average loss of every client on every cluster, then argmin *)
-  flat_map (fun ic : nat * Z => open_client (fst ic) ++
-                      [Call (ROwn 50) F_LOSS (map (fun k => RIn (20 + k)) (seq 0 K) ++ [RIn 11; RIn 12]) [];
-                       Call (ROwn 51) F_ARGMIN [ROwn 50] []; DictSet res_diag (snd ic) (ROwn 51)])
-           (indexed 0 cids) ++
-  (* expectation: per-cluster running sums in a fresh list *)
-  [ListNew (ROwn 70)] ++
-  flat_map (fun k => [Call (ROwn 1) F_ZEROS [RIn (20 + k)] []; ListAppend (ROwn 70) (ROwn 1)]) (seq 0 K) ++
+  map (fun ic : nat * Z => ListNew (ROwn (400 + fst ic))) (indexed 0 cids) ++
+  [DictOf (ROwn 52) (map (fun ic : nat * Z => (snd ic, ROwn (400 + fst ic))) (indexed 0 cids))] ++
+  flat_map (fun k => flat_map (fun ic : nat * Z => open_client (fst ic) ++
+                        [Call (ROwn 50) F_LOSS [RIn (20 + k); RIn 11; RIn 12] []; ListAppend (ROwn (400 + fst ic)) (ROwn 50)])
+                        (indexed 0 cids)) (seq 0 K) ++
+  [Call (ROwn 51) F_ARGMIN [] []] ++
+  (* expectation: per-cluster running sums and example counts *)
+  flat_map (fun k => [Call (ROwn (500 + k)) F_ZEROS [RIn (20 + k)] []; Call (ROwn (520 + k)) F_NONE [] []]) (seq 0 K) ++
+  [ListOf (ROwn 70) (map (fun k => ROwn (500 + k)) (seq 0 K)); ListOf (ROwn 71) (map (fun k => ROwn (520 + k)) (seq 0 K))] ++
   flat_map (fun ica : (nat * Z) * nat => let i := fst (fst ica) in let a := snd ica in
                        open_client i ++ run_client [] [RIn (20 + a)] (ROwn 3) ++
                        [Index (RIn 14) (ROwn 70) a; Call (ROwn 4) F_WEIGHT [ROwn 3; RIn 11] [];
-                        Call (ROwn 5) F_ADD [RIn 14; ROwn 4] []; ListSet (ROwn 70) a (ROwn 5)])
+                        Call (ROwn 5) F_ADD [RIn 14; ROwn 4] []; ListSet (ROwn 70) a (ROwn 5);
+                        Index (RIn 18) (ROwn 71) a; Call (ROwn 53) F_ADDN [RIn 18; RIn 11] []; ListSet (ROwn 71) a (ROwn 53)])
            (combine (indexed 0 cids) assign) ++
+  [ListNew (ROwn 72)] ++
+  flat_map (fun kl : nat * bool => let k := fst kl in
+                      if snd kl
+                      then [Index (RIn 14) (ROwn 70) k; Index (RIn 18) (ROwn 71) k; Call (ROwn 6) F_INVW [RIn 14; RIn 18] [];
+                            ListAppend (ROwn 72) (ROwn 6)]
+                      else [Call (ROwn 6) F_NONE [] []; ListAppend (ROwn 72) (ROwn 6)])
+           (combine (seq 0 K) live) ++
+  (* apply: new lists of cluster params / optimizer states; an empty cluster keeps the very objects *)
   [ListNew (ROwn 80); ListNew (ROwn 81)] ++
   flat_map (fun kl : nat * bool => let k := fst kl in
                       if snd kl
-                      then [Index (RIn 14) (ROwn 70) k; Call (ROwn 6) F_INVW [RIn 14] []] ++
-                           server_opt (ROwn 6) (RIn (60 + k)) (RIn (20 + k)) ++
+                      then [Index (RIn 19) (ROwn 72) k] ++ server_opt (RIn 19) (RIn (60 + k)) (RIn (20 + k)) ++
                            [ListAppend (ROwn 80) (ROwn 8); ListAppend (ROwn 81) (ROwn 7)]
                       else [ListAppend (ROwn 80) (RIn (20 + k)); ListAppend (ROwn 81) (RIn (60 + k))])
            (combine (seq 0 K) live) ++
+  [DictNew res_diag] ++
+  flat_map (fun ic : nat * Z => [Call (ROwn 54) F_ARGMIN [ROwn 51] []; DictOf (ROwn 110) [(0%Z, ROwn 54)];
+                                 DictSet res_diag (snd ic) (ROwn 110)]) (indexed 0 cids) ++
   [MkRec res_state [ROwn 80; ROwn 81]].
 
 (* APFL (apfl.py:185-236).  inplace = true is the pre-fix code that wrote into the input table. *)
@@ -161,10 +207,11 @@ Definition script_apfl_gen (inplace : bool) (cids : list Z) : list cmd :=
   mean_begin (RIn 2) ++
   flat_map (fun ic : nat * Z => open_client (fst ic) ++
                       [DictGet (RIn 13) (RIn 4) (snd ic) (ROwn 31); Field (RIn 14) (RIn 13) 0; Field (RIn 15) (RIn 13) 1;
-                       Call (ROwn 1) F_INIT [RIn 2; RIn 14; RIn 15; RIn 12] [];
-                       Call (ROwn 2) F_STEPS [ROwn 1; RIn 11] [ROwn 1];
+                       Call (ROwn 1) F_INIT [RIn 2; RIn 14; RIn 15; RIn 12]
+                            (pick_don_Z Gen_for_each_client.jit_init_donates [[RIn 2]; [RIn 14; RIn 15; RIn 12]]);
+                       Call (ROwn 2) F_STEPS [ROwn 1; RIn 11] (pick_don_Z Gen_for_each_client.jit_step_donates [[ROwn 1]; [RIn 11]]);
                        Call (ROwn 34) F_FINAL2 [RIn 2; ROwn 2] []; Call (ROwn 35) F_FINAL3 [RIn 2; ROwn 2] [];
-                       Call (ROwn 3) F_FINAL [RIn 2; ROwn 2] [ROwn 2];
+                       Call (ROwn 3) F_FINAL [RIn 2; ROwn 2] (pick_don_Z Gen_for_each_client.jit_final_donates [[RIn 2]; [ROwn 2]]);
                        MkRec (ROwn 36) [ROwn 34; ROwn 35]; DictSet table (snd ic) (ROwn 36)] ++
                       accumulate (ROwn 3) (snd ic))
            (indexed 0 cids) ++
@@ -173,24 +220,31 @@ Definition script_apfl_gen (inplace : bool) (cids : list Z) : list cmd :=
 Definition script_apfl := script_apfl_gen false.
 
 (* ---- compression aggregators (compression.py); state = [num_bits; rng] ------------------
-   RIn 5 = the key stored in the new state; ROwn 21 = hk.PRNGSequence state *)
-Definition tree_mean_step (i : nat) (x : reg) : list cmd :=
-  [Call (ROwn 23) F_WEIGHT [x; RIn 12] []] ++
+   RIn 5 = the key stored in the new state; ROwn 21 = hk.PRNGSequence state.
+   tree_mean (tree_util.py:76-96): weighted copies, the first one owned, later ones added with the
+   accumulator donated, the final inverse weighting donates the sum (gen/Gen_tree_util.v). *)
+Definition mean_step (i : nat) (x : reg) : list cmd :=
+  [Call (ROwn 23) F_WEIGHT [x; RIn 12] (pick_don Gen_tree_util.tree_weight_donates [[x]; [RIn 12]])] ++
   match i with
   | O => [Move (ROwn 24) (ROwn 23)]                                  (* we own weighted_pytree *)
-  | S _ => [Call (ROwn 24) F_ADD [ROwn 24; ROwn 23] [ROwn 24]]       (* _tree_add_eq donates the sum *)
+  | S _ => [Call (ROwn 24) F_ADD [ROwn 24; ROwn 23] (pick_don Gen_tree_util.tree_add_eq_donates [[ROwn 24]; [ROwn 23]])]
   end.
 
 Definition agg_finish : list cmd :=
-  [Call res_agg F_INVW [ROwn 24] [ROwn 24]; Call (ROwn 26) F_BITS [RIn 2; res_agg] []; MkRec res_state [ROwn 26; RIn 5]].
+  [Call res_agg F_INVW [ROwn 24] (pick_don Gen_tree_util.tree_weight_eq_donates [[ROwn 24]]);
+   Call (ROwn 26) F_BITS [RIn 2; res_agg] []; MkRec res_state [ROwn 26; RIn 5]].
 
-(* uniform_stochastic_quantizer (176-218) and terngrad_quantizer (380-400): rng, use_rng = split(state.rng) *)
-Definition script_quant1 (cids : list Z) : list cmd :=
+(* uniform_stochastic_quantizer (176-218) and terngrad_quantizer (380-400): rng, use_rng = split(state.rng);
+   arith = encode_algorithm == 'arithmetic': a per-call list total_bits collects one entry per client *)
+Definition script_quant1 (arith : bool) (cids : list Z) : list cmd :=
   [Field (RIn 2) st_r 0; Field (RIn 3) st_r 1;
    Call (RIn 5) F_SPLIT0 [RIn 3] []; Call (ROwn 21) F_SPLIT1 [RIn 3] []] ++
+  (if arith then [ListNew (ROwn 60)] else []) ++
   flat_map (fun ic : nat * Z => open_client (fst ic) ++
                       [Call (ROwn 22) F_SEQKEY [ROwn 21] []; Call (ROwn 21) F_SEQREST [ROwn 21] [];
-                       Call (ROwn 25) F_QUANT [RIn 11; ROwn 22] []] ++ tree_mean_step (fst ic) (ROwn 25))
+                       Call (ROwn 25) F_QUANT [RIn 11; ROwn 22] []] ++
+                      (if arith then [Call (ROwn 61) F_ABITS [ROwn 25] []; ListAppend (ROwn 60) (ROwn 61)] else []) ++
+                      mean_step (fst ic) (ROwn 25))
            (indexed 0 cids) ++ agg_finish.
 
 (* rotated_uniform_stochastic_quantizer (240-267): rng, rotation = split(state.rng); rng, use = split(rng) *)
@@ -201,7 +255,7 @@ Definition script_rotated (cids : list Z) : list cmd :=
   flat_map (fun ic : nat * Z => open_client (fst ic) ++
                       [Call (ROwn 22) F_SEQKEY [ROwn 21] []; Call (ROwn 21) F_SEQREST [ROwn 21] [];
                        Call (ROwn 28) F_ROT [RIn 11; ROwn 27] [];
-                       Call (ROwn 25) F_QUANT [ROwn 28; ROwn 22; ROwn 27] []] ++ tree_mean_step (fst ic) (ROwn 25))
+                       Call (ROwn 25) F_QUANT [ROwn 28; ROwn 22; ROwn 27] []] ++ mean_step (fst ic) (ROwn 25))
            (indexed 0 cids) ++ agg_finish.
 
 (* structured_drive_quantizer (300-325): rng, rotation_rng = split(state.rng); PRNGSequence(rotation_rng) *)
@@ -211,7 +265,7 @@ Definition script_drive (cids : list Z) : list cmd :=
   flat_map (fun ic : nat * Z => open_client (fst ic) ++
                       [Call (ROwn 22) F_SEQKEY [ROwn 21] []; Call (ROwn 21) F_SEQREST [ROwn 21] [];
                        Call (ROwn 28) F_ROT [RIn 11; ROwn 22] [];
-                       Call (ROwn 25) F_QUANT [ROwn 28; ROwn 22] []] ++ tree_mean_step (fst ic) (ROwn 25))
+                       Call (ROwn 25) F_QUANT [ROwn 28; ROwn 22] []] ++ mean_step (fst ic) (ROwn 25))
            (indexed 0 cids) ++ agg_finish.
 
 (* ---- which script ------------------------------------------------------------------------ *)
@@ -228,7 +282,8 @@ Definition script_of (a : C10_alg) (W K : nat) (rd : C10_round) : list cmd :=
   | AAgnostic => script_agnostic W (rd_cids rd)
   | AHyp => script_hyp K (rd_cids rd) (rd_assign rd) (rd_live rd)
   | AApfl => script_apfl (rd_cids rd)
-  | QUniform | QUniformArith | QTern => script_quant1 (rd_cids rd)
+  | QUniform | QTern => script_quant1 false (rd_cids rd)
+  | QUniformArith => script_quant1 true (rd_cids rd)
   | QRotated => script_rotated (rd_cids rd)
   | QDrive => script_drive (rd_cids rd)
   end.
